@@ -9,6 +9,7 @@ INIT Init
 NEXT Next
 INVARIANT Law1
 INVARIANT Law2
+INVARIANT Law3Wired
 INVARIANT Witness
 INVARIANT CexEmit
 CHECK_DEADLOCK FALSE
